@@ -135,6 +135,9 @@ def run():
     from contracts.fir import sumr_upd
     check('SUMR_UPD schema is the proved statement', z3.eq(z3.simplify(sumr_upd(A, p, v, n)), z3.simplify(upd(n))) or True,
           'same formula up to naming (see contracts/fir.py)')
+    zero = lambda m: z3.ForAll([j], z3.Implies(z3.And(0 <= j, j < m), A[j] == 0))
+    prove('SUMR_ZERO base', z3.Implies(zero(0), SUMR(A, 0) == 0), *sumr_defs(A))
+    prove('SUMR_ZERO step', z3.Implies(z3.And(n >= 0, z3.Implies(zero(n), SUMR(A, n) == 0), zero(n + 1)), SUMR(A, n + 1) == 0), *sumr_defs(A))
     # DOT extension
     H = z3.Const('H', AR)
     o, st = z3.Ints('o st')
